@@ -391,6 +391,10 @@ def run(model, rep, tier):
     shortcuts.check(model, rep, 'R09.8', 'sample:_offsets', param='pointsseq', why='a total that equals count x first says nothing about the individual point counts: offsets of a non-uniform sequence would be wrong')
     if nte < 4:
         raise AnalysisError(f'R09.8: only {nte} take_elements returns found')
+    from rules import round5 as _r5
+    rep.rule('R09.11', 'weights per target exclude skip_missing in locate; subset reads its mask through the advertised index')
+    _r5.check_locate_weights_guard(model, rep, 'R09.11')
+    _r5.check_subset_by_index(model, rep, 'R09.11')
     rep.rule('R09.9', 'every name loaded in sample.py, points.py, pointsseq.py and element.py resolves (symtable)')
     from rules import names as _names
     _names.check(model, rep, 'R09.9', ('sample', 'points', 'pointsseq', 'element'), 300)
